@@ -36,6 +36,10 @@ def apply(name):
         "disconnect_one_sided": lambda: mutate(c.Stream, "disconnect", "downstream._remove_upstream(self)", "pass"),
         "source_start_always": lambda: mutate(s.Source, "start", "if self.stopped:", "if True:"),
     }
+    if name == "df_count_size":
+        from streamz.dataframe import aggregations as ag
+        mutate(ag.Count, "on_new", "result = acc + new.count()", "result = acc + new.size")
+        return
     if name == "corrupt_log":
         return
     table[name]()
